@@ -56,9 +56,10 @@ func needsParen(parent *Expr, child *Expr, right bool) bool {
 	if cp >= 9 {
 		return false
 	}
-	// elvis and the ternary share a level; their mutual nesting is always parenthesised
+	// elvis and the ternary share the lowest level and group from the right: a ?: b ? c : d is
+	// a ?: (b ? c : d); a ternary as the left operand needs its parentheses
 	if parent.Op == "?:" && child.Op == "tern" {
-		return true
+		return !right
 	}
 	if parent.Op == "?:" && child.Op == "?:" {
 		return false // value is the same under either associativity
@@ -125,7 +126,11 @@ func printExpr1(e *Expr) string {
 		for i, a := range e.Args {
 			parts[i] = PrintExpr(a)
 		}
-		return "[" + strings.Join(parts, ", ") + "]"
+		body := strings.Join(parts, ", ")
+		if len(parts) > 0 && (len(body)+len(parts))%6 == 4 {
+			body += "," // (a comma may follow the last item)
+		}
+		return "[" + body + "]"
 	case "map":
 		if len(e.Args) == 0 {
 			return "[:]"
@@ -134,7 +139,11 @@ func printExpr1(e *Expr) string {
 		for i, a := range e.Args {
 			parts[i] = QuoteSoy(e.Keys[i], 0) + ": " + PrintExpr(a)
 		}
-		return "[" + strings.Join(parts, ", ") + "]"
+		body := strings.Join(parts, ", ")
+		if (len(body)+len(parts))%6 == 3 {
+			body += ", "
+		}
+		return "[" + body + "]"
 	case "global":
 		return e.Name
 	case "ref":
@@ -505,8 +514,10 @@ func (p *printer) cmd(c *Cmd) {
 		b.WriteString(tag(inner))
 		b.WriteString(c.Gap)
 		for _, pr := range c.Call.Params {
-			if soyKeywords[pr.Key] {
-				pr.Style = 1 // a key spelled like a command name is written in attribute syntax
+			if soyKeywords[pr.Key] && (pr.Key == "literal" || pr.Key == "css" || pr.Key == "template" || (len(pr.Key)+len(c.Call.Target))%2 == 0) {
+				// a key spelled like a command name may be written in attribute syntax (after {literal, {css
+				// and {template the scanner reads on in a mode of its own: those always are)
+				pr.Style = 1
 			}
 			switch {
 			case pr.IsBlock && pr.Style == 0:
